@@ -423,7 +423,9 @@ class ScopeGen(ScopeFn):
     @NodeRef.wrap
     def assign(self, node):
         self.access(node)
-        if node.name not in self.defined:
+        if node.name not in self.defined and node.name not in self.iterators:
+            # (An iteration variable is the comprehension's own, however
+            # often it's reassigned.)
             self.assignments.append(node)
         return node.node
 
